@@ -363,3 +363,91 @@ func H_C15_placeholderCount(inst int) {
 		verify(err != nil, "2 placeholders in a list, 1 argument: no error")
 	}
 }
+
+// ---- Scan of a whole answer (several variables) through the public API ----
+
+func init() { vHarnesses["H_C15_scanAnswer"] = H_C15_scanAnswer }
+
+// H_C15_scanAnswer: an answer with two or three list-valued variables of lengths chosen by case split (so that a
+// later list fits or does not fit into the capacity left by an earlier one) and symbolic integer elements is scanned
+// into destinations of 5 kinds: map[string][]int64, map[string]interface{}, struct with slice fields, map[string][]int8,
+// and the same destination scanned twice for two answers.
+func H_C15_scanAnswer(inst int) {
+	i := newFull()
+	lens := []int{choice("lenx", 4), choice("leny", 4)}
+	var vals [2][]int64
+	var args []interface{}
+	text := "X = ["
+	for v := 0; v < 2; v++ {
+		if v == 1 {
+			text += "], Y = ["
+		}
+		for k := 0; k < lens[v]; k++ {
+			x := nondetInt64("e" + string(rune('0'+v)) + string(rune('0'+k)))
+			if inst == 3 {
+				assume(bAnd(x >= -128, x <= 127))
+			}
+			vals[v] = append(vals[v], x)
+			args = append(args, x)
+			if k > 0 {
+				text += ", "
+			}
+			text += "?"
+		}
+	}
+	text += "]."
+	sols, err := i.Query(text, args...)
+	verify(err == nil, "Query returned an error")
+	verify(sols.Next(), "no answer")
+	check64 := func(got []int64, want []int64, what string) {
+		verify(len(got) == len(want), what+": length differs from the answer's list")
+		for k := range want {
+			verify(got[k] == want[k], what+": an element differs from the answer's list")
+		}
+	}
+	switch inst {
+	case 0:
+		m := map[string][]int64{}
+		verify(sols.Scan(m) == nil, "Scan into map[string][]int64 failed")
+		check64(m["X"], vals[0], "map[string][]int64 X")
+		check64(m["Y"], vals[1], "map[string][]int64 Y")
+	case 1:
+		m := map[string]interface{}{}
+		verify(sols.Scan(m) == nil, "Scan into map[string]interface{} failed")
+		for v, name := range []string{"X", "Y"} {
+			s, ok := m[name].([]interface{})
+			if len(vals[v]) == 0 {
+				continue // an empty list is the atom []: its Go image is not a slice
+			}
+			verify(ok && len(s) == len(vals[v]), "map[string]interface{}: not a slice of the answer's length")
+			for k := range vals[v] {
+				verify(s[k] == interface{}(int(vals[v][k])), "map[string]interface{}: an element differs")
+			}
+		}
+	case 2:
+		var d struct{ X, Y []int64 }
+		verify(sols.Scan(&d) == nil, "Scan into a struct failed")
+		check64(d.X, vals[0], "struct X")
+		check64(d.Y, vals[1], "struct Y")
+	case 3:
+		m := map[string][]int8{}
+		verify(sols.Scan(m) == nil, "Scan into map[string][]int8 failed")
+		for v, name := range []string{"X", "Y"} {
+			verify(len(m[name]) == len(vals[v]), "map[string][]int8: length differs")
+			for k := range vals[v] {
+				verify(int64(m[name][k]) == vals[v][k], "map[string][]int8: an element differs")
+			}
+		}
+	case 4:
+		// two Scans into fresh destinations: the first result must not change when the second is made
+		m1 := map[string][]int64{}
+		verify(sols.Scan(m1) == nil, "Scan failed")
+		x1 := append([]int64{}, m1["X"]...)
+		m2 := map[string][]int64{}
+		verify(sols.Scan(m2) == nil, "second Scan failed")
+		check64(m1["X"], x1, "first destination after a second Scan")
+		check64(m2["Y"], vals[1], "second destination Y")
+	}
+	sols.Close()
+	reach("c15/answer", true)
+}
